@@ -177,6 +177,8 @@ fn gen(seed: u64, idx: usize) -> Hostile {
             scn.t_eval = Some((0..=m).map(|i| x0 + (xend - x0) * i as f64 / m as f64).collect());
             if let Some(t) = scn.t_eval.as_mut() {
                 *t.last_mut().unwrap() = xend;
+                // on intervals of a few ulps the uniform grid rounds to repeated values: keep it strictly monotone
+                t.dedup();
             }
         }
         3 => scn.dense = true,
